@@ -465,6 +465,34 @@ val db_insert_allocs : db -> z list -> z list -> nat res
 
 val db_remove_allocs : db -> z list -> nat res
 
+val blocks : sizes -> node -> z list
+
+val db_blocks : sizes -> db -> z list
+
+val ev_ins_allocs : sizes -> ev -> z list -> z list -> z list
+
+val ev_ins_frees : sizes -> ev -> z list
+
+val ev_rem_allocs : sizes -> ev -> z list
+
+val ev_rem_frees : sizes -> ev -> z list -> z list -> z list
+
+val insert_event : db -> z list -> z list -> ev option
+
+val remove_event : db -> z list -> (ev * (z list * z list)) option
+
+val ins_allocs : sizes -> db -> z list -> z list -> z list
+
+val ins_frees : sizes -> db -> z list -> z list -> z list
+
+val rem_allocs : sizes -> db -> z list -> z list
+
+val rem_frees : sizes -> db -> z list -> z list
+
+val live_remove_one : z -> z list -> z list option
+
+val free_all : z list -> z list -> z list option
+
 type tid = nat
 
 val w_is_free : z -> bool
